@@ -28,16 +28,28 @@ var c15Patterns = []struct{ SQL, Re string }{
 	{"A B? C", "AB?C"}, {"A* B", "A*B"}, {"(A B)+", "(AB)+"}, {"(A | B) C", "(A|B)C"}, {"A (B | C)+ D", "A(B|C)+D"},
 	{"PERMUTE(A, B) C", "(AB|BA)C"}, {"A+", "A+"}, {"A B*", "AB*"}, {"A{2,} B", "A{2,}B"}, {"A B C D", "ABCD"},
 	{"A{1,3} B", "A{1,3}B"}, {"A{2,4}", "A{2,4}"}, {"A B{0,3} C", "AB{0,3}C"}, {"(A B){1,3} C", "(AB){1,3}C"},
+	// alternatives one of which can start on a later row of a run the other is still extending
+	// (c15AltLater): leftmost-first has to hold the later start back
+	{"(A B+ | B)", "(AB+|B)"}, {"(A B+ C | B)", "(AB+C|B)"}, {"(A B | B) C", "(AB|B)C"},
 }
+
+const c15AltLater = 20 // index of the first of those
 
 func (c15) Gen(rng *simrt.Rand, seed uint64, tier string) *Case {
 	if rng.Bool(0.25) {
 		return genC15Prev(rng, tier)
 	}
 	c := &Case{X: map[string]any{}}
-	pat := c15Patterns[rng.Intn(len(c15Patterns))]
+	pi := rng.Intn(len(c15Patterns))
+	pat := c15Patterns[pi]
 	skipNext := rng.Bool(0.35)
 	domain := []string{"seq", "now", "now", "past"}[rng.Intn(4)]
+	if pi >= c15AltLater {
+		c.X["alt_later"] = true
+		if domain == "past" {
+			domain = "now" // keep these clear of the known wall-clock sweeper finding
+		}
+	}
 	within := ""
 	var withinNS int64
 	if domain != "seq" {
@@ -372,6 +384,9 @@ func (c15) Run(e *Env) {
 				site := domain
 				if domain == "past" && withinNS > 0 {
 					site = "past/within-sweeper" // historic timestamps with the wall-clock WITHIN sweeper active
+				}
+				if e.C.xBool("alt_later") {
+					site = "alternative-starting-inside-a-longer-run"
 				}
 				missing := 0
 				for _, m := range x {
